@@ -19,3 +19,4 @@ Definition area_of_extent {T : Type} (e : T * T * T * T) (w h : Z) : area T :=
 
 (* affine.Affine(a, b, c, d, e, f): x' = a*col + b*row + c ; y' = d*col + e*row + f *)
 Definition affine6 (T : Type) : Type := (T * T * T * T * T * T)%type.
+Definition mk_affine6 {T : Type} (a b c d e f : T) : affine6 T := (a, b, c, d, e, f).
